@@ -19,7 +19,7 @@ const (
 	wallKill     = 60 * time.Second  // safety net only: no CPU progress of the running script for this long (blocked, not computing)
 	wallCap      = 15 * time.Minute  // absolute cap per script (a machine loaded so heavily makes the run inconclusive)
 	helloTimeout = 60 * time.Second  // child start-up
-	memBombKB    = 1024 * 1024       // time is not judged for a call during which the child's peak RSS exceeded 1 GiB (memory bomb: outside the claim)
+	memBombKB    = 512 * 1024        // time is not judged for a call during which the child's peak RSS exceeded 512 MiB (memory / nesting bomb: outside the claim)
 	rssKillKB    = 6 * 1024 * 1024   // machine protection: a child above 6 GiB RSS is killed (memory bomb: outside the claim)
 	straceBin    = "/usr/bin/strace" // (c2)
 	straceSet    = "trace=openat,open,creat,execve,execveat,socket,connect,bind,unlink,unlinkat,rename,renameat,mkdir,fork,vfork,clone3"
